@@ -142,6 +142,20 @@ func validateMessageKeys(observedMsgs exectypes.MessageObservations) error {
 	return nil
 }
 
+// validateCommitReportKeys checks that every observed commit report is filed under its own source chain.
+// The report is used by its SourceChain field (messages are looked up and executed for that chain), so a report
+// filed under another chain key would be agreed and then executed as a report of a chain it was never counted for.
+func validateCommitReportKeys(observedData exectypes.CommitObservations) error {
+	for chainSel, commitData := range observedData {
+		for _, data := range commitData {
+			if data.SourceChain != chainSel {
+				return fmt.Errorf("commit report of chain %d observed under chain key %d", data.SourceChain, chainSel)
+			}
+		}
+	}
+	return nil
+}
+
 var errOverlappingRanges = errors.New("overlapping sequence numbers in reports")
 
 // computeRanges takes a slice of reports and computes the smallest number of contiguous ranges
@@ -667,7 +681,15 @@ func getConsensusObservation(
 
 	lggr.Debugw("getConsensusObservation decoded observations", "aos", aos)
 
-	mergedCommitObservations, err := mergeCommitObservations(aos, fChain)
+	// Commit reports are read from the destination chain, whatever source chain they are about: they are agreed
+	// at the destination's f (like the nonces and the costly messages below), not at the f of the source chain they
+	// are filed under. Only observers of the destination can be counted on to report them, and up to
+	// fChain[dest] of those may be faulty.
+	commitFChain := make(map[cciptypes.ChainSelector]int, len(fChain))
+	for selector := range fChain {
+		commitFChain[selector] = fChain[destChainSelector]
+	}
+	mergedCommitObservations, err := mergeCommitObservations(aos, commitFChain)
 	if err != nil {
 		return exectypes.Observation{}, fmt.Errorf("unable to merge commit report observations: %w", err)
 	}
